@@ -33,9 +33,9 @@ def parser_function_names():
 DECLARED_OUT_OF_REACH = {
     "expr_fn": "11 mutually recursive closures over nonlocal tokidx and tables of lambdas/math functions; "
                "float arithmetic is opaque in the encoding (bounded tier: #expr differential + no-raise sweep)",
-    "time_fn": "dateparser/strftime dominated", "timel_fn": "mutates its args list then calls time_fn",
-    "dateformat_fn": "dateparser dominated", "property_fn": "network (wikidata) query",
-    "statements_fn": "network (wikidata) query",
+    "time_fn": "dateparser/strftime dominated",
+    "timel_fn": "appends to its symbolic args list (engine: no mutation of symbolic lists) then calls time_fn",
+    "dateformat_fn": "dateparser dominated",
     "fullurl_fn": "string methods on values of the interwiki table (sqlite cache of a network resource)",
 }
 
@@ -49,6 +49,9 @@ CALLEES = [
     dict(target="common:nowiki_quote", result="str", owner="C15"),
     dict(target="parserfns:expr_fn", result="str", owner="bounded tier only (declared out of reach); known findings live there"),
     dict(target="interwiki:get_interwiki_map", result="opq", owner="assumed (sqlite cache of a network table)"),
+    # #property / #statements: their own bodies are under the totality contract; the query behind them is not
+    dict(target="wikidata:statement_query", result="str",
+         owner="assumed (network query to wikidata with an sqlite cache; not executable offline)"),
 ]
 
 
